@@ -3,8 +3,8 @@ from vlib.core import Stage
 
 ID = "C17"
 STAGES = [
-    Stage("indexing", "p17_indexing", "plain", {"quick": 350, "thorough": 35000}),
-    Stage("indexing-asan", "p17_indexing", "asan", {"quick": 150, "thorough": 15000}, offset=1000000),
+    Stage("indexing", "p17_indexing", "plain", {"quick": 8000, "thorough": 60000}),
+    Stage("indexing-asan", "p17_indexing", "asan", {"quick": 2000, "thorough": 20000}, offset=1000000),
 ]
 
 # Exact sub-checks: the driver reports the NUMBER OF MISMATCHES found on a grid (every node / every offset is compared
